@@ -30,21 +30,21 @@ def _norm(op, role):
     return o
 
 
-def object_chain(spec, oid, upto):
+def object_chain(spec, oid, upto, exclude=()):
     """S's own construction and configuration operations before step ``upto``."""
     chain = []
     for j, op in enumerate(spec["ops"][:upto]):
-        if op.get("obj") == oid and op["op"] in ("new", "cfg"):
+        if op.get("obj") == oid and op["op"] in ("new", "cfg") and j not in exclude:
             chain.append(_norm(op, "chain"))
     return chain
 
 
-def mini_spec(spec, i):
+def mini_spec(spec, i, exclude=()):
     op = spec["ops"][i]
     if op["op"] == "new":
         ops = [_norm(op, "self")]
     elif op["op"] in ("call", "cfg"):
-        ops = object_chain(spec, op["obj"], i) + [_norm(op, "self")]
+        ops = object_chain(spec, op["obj"], i, exclude) + [_norm(op, "self")]
     else:
         return None
     return {"ops": ops, "faults": [], "run": {}}
@@ -89,7 +89,7 @@ def describe_diff(a, b):
     for n, fa, fb in zip(a[1], a[2], b[2]):
         if fa != fb:
             try:
-                if fa[0] == fb[0] and fa[1] == fb[1] and not fa[0].startswith("object") and fa[0] != "object":
+                if fa[0] == fb[0] and fa[1] == fb[1] and np.dtype(fa[0]).kind in "fiub":
                     xa = np.frombuffer(fa[2], dtype=fa[0]).astype(float)
                     xb = np.frombuffer(fb[2], dtype=fb[0]).astype(float)
                     with np.errstate(all="ignore"):
@@ -123,6 +123,7 @@ def judge_c06(spec, hist, refs):
     stats = {"h1_checked": 0, "h1_after_fault": 0, "h4_pairs": 0, "h4_points": 0, "h4_skipped": 0, "unjudged_faulted": 0}
     faulted = _faulted_steps(hist)
     tainted = set()      # objects whose construction had a fault injected: the object may not exist
+    cfg_faulted = {}     # object -> steps of configuration ops that were interrupted (may or may not have taken effect)
     seen_fault = False
     for rec in hist["log"]:
         i = rec["i"]
@@ -132,6 +133,10 @@ def judge_c06(spec, hist, refs):
             stats["unjudged_faulted"] += 1
             if op["op"] == "new":
                 tainted.add(op["obj"])
+            elif op["op"] == "cfg":
+                cfg_faulted.setdefault(op["obj"], []).append(i)
+                if len(cfg_faulted[op["obj"]]) > 2:
+                    tainted.add(op["obj"])
             # events during a faulted op are still the caller's business: inputs must not be written
         for ev in rec["events"]:
             inv = "H3" if ev[0] == "input-modified" else "H2"
@@ -148,7 +153,20 @@ def judge_c06(spec, hist, refs):
         stats["h1_checked"] += 1
         if seen_fault:
             stats["h1_after_fault"] += 1
-        if not same_outcome(rec["out"], ref_out):
+        ok = same_outcome(rec["out"], ref_out)
+        if not ok and cfg_faulted.get(op.get("obj")):
+            # an interrupted setter either took effect or did not: accept the reference of either configuration
+            fs = [j for j in cfg_faulted[op["obj"]] if j < i]
+            subsets = [[]]
+            for j in fs:
+                subsets = subsets + [x + [j] for x in subsets]
+            for ex in subsets[1:]:
+                alt = reference(mini_spec(spec, i, exclude=set(ex)))
+                stats["h1_alt_refs"] = stats.get("h1_alt_refs", 0) + 1
+                if same_outcome(rec["out"], alt[0][-1]):
+                    ok = True
+                    break
+        if not ok:
             viol.append({"inv": "H1", "step": i, "cls": short_cls(_cls_of(spec, op)), "fam": op.get("fam", _fam_of(spec, op)),
                          "after_fault": seen_fault, "detail": describe_diff(rec["out"], ref_out)})
     v4, s4 = judge_batch(spec, hist, faulted, tainted)
@@ -191,7 +209,8 @@ def _field_arrays(out):
         if f[0] == "object":
             res[n] = None
         else:
-            res[n] = np.frombuffer(f[2], dtype=f[0]).reshape(f[1])
+            a = np.frombuffer(f[2], dtype=f[0]).reshape(f[1])
+            res[n] = a if a.dtype.kind in "fiub" else None
     return res
 
 
